@@ -1,12 +1,13 @@
 import JT.Proof.Attach
+import JT.Proof.AttSeg
 /-!
 # C15 — attachment upload: files are reassembled byte-exactly
 
 Property theorems only, for the per-file bookkeeping (`JT/Model/Attach.lean`, after the D20 repair). A file of
 `n` bytes with content `content` is split into pieces `parts` that tile `[0, n)` (any number, any sizes ≥ 1);
 `arr` is the list of pieces that have arrived so far — in ANY order, each possibly several times (resent chunks).
-Independence of TCP segmentation and the recognition of control frames are decided by execution against the
-real server (socket scenarios with random write partitions), not proved here — see DESIGN.md.
+Independence of TCP segmentation is proved at the end of this file over the model of the connection loop
+(`JT/Model/AttStream.lean`, tied to the real server by the stage sequences of C10's `astream` runs).
 -/
 namespace JT.C15
 open JT JT.Attach
@@ -90,5 +91,31 @@ theorem done_reply (sizes : List Nat) (st : List FileRec) (i : Nat) (r : FileRec
 example : Tiles 5 0 [(0, 2), (2, 1), (3, 2)] := ⟨rfl, by decide, rfl, by decide, rfl, by decide, rfl⟩
 example : body (after 5 [10, 11, 12, 13, 14] [(3, 2), (0, 2), (0, 2), (2, 1)]) = [10, 11, 12, 13, 14] := by decide
 example : complete (after 5 [10, 11, 12, 13, 14] [(3, 2), (0, 2), (0, 2)]) = false := by decide
+
+/-! ### any TCP segmentation or coalescing (model of the connection loop: `JT/Model/AttStream.lean`) -/
+
+/-- a fresh connection has nothing buffered -/
+theorem init_drained (dl : AttStream.Dialect) : AttStream.Drained dl AttStream.Sess.init := by
+  intro f' hf'
+  cases f' with
+  | zero => simp [AttStream.Sess.init] at hf'
+  | succ k => rfl
+
+/-- **The upload session does not depend on how the byte stream is cut into reads.** For every dialect and every
+non-empty sequence of reads — any lengths, cutting control frames and chunk headers anywhere, coalescing several units
+into one read — the events handed to the file handler (stage by stage, in order) and the final verdict (session failed
+or not) are those of the whole stream arriving in one read. In particular a control frame is recognised as such, and
+answered, wherever the read boundaries fall. -/
+theorem segmentation_independent (dl : AttStream.Dialect) (r : Bytes) (rs : List Bytes) :
+    AttStream.obs (AttStream.run dl AttStream.Sess.init (r :: rs) []) =
+    AttStream.obs (AttStream.run dl AttStream.Sess.init [(r :: rs).flatten] []) :=
+  AttStream.run_flatten dl rs r AttStream.Sess.init [] (init_drained dl)
+
+/-- two partitions of the same stream are indistinguishable -/
+theorem any_two_partitions_agree (dl : AttStream.Dialect) (r r' : Bytes) (rs rs' : List Bytes)
+    (h : (r :: rs).flatten = (r' :: rs').flatten) :
+    AttStream.obs (AttStream.run dl AttStream.Sess.init (r :: rs) []) =
+    AttStream.obs (AttStream.run dl AttStream.Sess.init (r' :: rs') []) := by
+  rw [segmentation_independent dl r rs, segmentation_independent dl r' rs', h]
 
 end JT.C15
